@@ -555,5 +555,92 @@ theorem readStartTag_end (t : Tokenizer) (ok : Ok t) (h1 : 1 ≤ t.rawE) : EndG 
   simp only
   (repeat' split) <;> first | exact e | exact e2 | exact e2.congr rfl rfl rfl
 
+/-! ### raw text ends right before the `<` of its end tag -/
+
+def Lt1 (t : Tokenizer) : Prop := 1 ≤ t.rawE ∧ t.buf[t.rawE - 1]? = some 60
+def Lt2 (t : Tokenizer) : Prop := 2 ≤ t.rawE ∧ t.buf[t.rawE - 2]? = some 60
+/-- "hit EOF, or stopped right before a `<`" -/
+def EndL (t : Tokenizer) : Prop := t.err = true ∨ AtLt t
+
+theorem lt1_of_read {t : Tokenizer} (herr : ¬ t.readByte.1.err = true) (h : (t.readByte.2 == 60) = true) :
+    Lt1 t.readByte.1 := by
+  have l := lastRead herr
+  have : t.readByte.2 = 60 := by simpa using h
+  exact ⟨l.1, by rw [l.2, this]⟩
+
+theorem lt2_of_read {t : Tokenizer} (herr : ¬ t.readByte.1.err = true) (h : Lt1 t) : Lt2 t.readByte.1 := by
+  have e := readByte_succ herr
+  refine ⟨by have := h.1; omega, ?_⟩
+  rw [e, readByte_buf, show t.rawE + 1 - 2 = t.rawE - 1 by omega]
+  exact h.2
+
+theorem rawEndTag_atLt (t : Tokenizer) (ok : Ok t) (h2 : Lt2 t) (htag : ∀ x ∈ t.rawTag, 32 ≤ x)
+    (h : (readRawEndTag t).2 = true) : AtLt (readRawEndTag t).1 := by
+  have ro := readRawEndTag_ok t ok h2.1 htag
+  have e := (ro.2.2.2 h).1
+  unfold AtLt
+  rw [ro.2.2.1, show (readRawEndTag t).1.rawE = t.rawE - 2 by omega]
+  exact h2.2
+
+theorem rawTextGo_end (t : Tokenizer) (ok : Ok t) (htag : ∀ x ∈ t.rawTag, 32 ≤ x) : EndL (rawTextGo t) := by
+  fun_induction rawTextGo t
+  all_goals (try simp +zetaDelta only at *)
+  case case1 => exact Or.inl (by assumption)
+  case case2 ih =>
+    have a1 := readByte_adv ok
+    exact ih a1.ok (by rw [a1.rawTag]; exact htag)
+  case case3 => exact Or.inl (by assumption)
+  case case4 ih =>
+    have a1 := readByte_adv ok
+    have a2 := readByte_adv a1.ok
+    exact ih a2.ok (by rw [a2.rawTag, a1.rawTag]; exact htag)
+  case case5 t _ herr hlt _ herr2 hsl _ hor =>
+    have a1 := readByte_adv ok
+    have a2 := readByte_adv a1.ok
+    by_cases he : t.readByte.1.readByte.1.readRawEndTag.1.err = true
+    · exact Or.inl he
+    · have htrue : t.readByte.1.readByte.1.readRawEndTag.2 = true := by simpa [he] using hor
+      have hl : (t.readByte.2 == 60) = true := by simpa using hlt
+      exact Or.inr (rawEndTag_atLt _ a2.ok (lt2_of_read herr2 (lt1_of_read herr hl))
+        (by rw [a2.rawTag, a1.rawTag]; exact htag) htrue)
+  case case6 t _ herr _ _ herr2 _ _ _ ih =>
+    have a1 := readByte_adv ok
+    have a2 := readByte_adv a1.ok
+    have e1 := readByte_succ herr
+    have e2 := readByte_succ herr2
+    have htag2 : ∀ x ∈ t.readByte.1.readByte.1.rawTag, 32 ≤ x := by rw [a2.rawTag, a1.rawTag]; exact htag
+    have ro := readRawEndTag_ok _ a2.ok (by omega) htag2
+    exact ih ro.1 (by rw [ro.2.1]; exact htag2)
+
+theorem lt_unread {t : Tokenizer} (herr : ¬ t.readByte.1.err = true) :
+    (t.readByte.1.unread 1).rawE = t.rawE ∧ (t.readByte.1.unread 1).buf = t.buf := by
+  have e := readByte_succ herr
+  have := unread_rawE_eq (t := t.readByte.1) 1 (by omega)
+  exact ⟨by omega, by simp⟩
+
+/-- the script automaton returns at EOF or right before the `<` of `</script`; in the three "less-than-sign" states the
+last byte read is `<`, in the three "end tag" states the last two are `</` -/
+theorem scriptGo_end (st : SS) (t : Tokenizer) (ok : Ok t) (hs : t.rawTag = htmlScript)
+    (p1 : st.need = 1 → Lt1 t) (p2 : st.need = 2 → Lt2 t) : EndL (scriptGo st t) := by
+  fun_induction scriptGo st t
+  all_goals (try simp +zetaDelta only [SS.need] at *)
+  -- edges that start with `read_byte`
+  all_goals try (
+    first
+      | exact Or.inl (by assumption)
+      | (apply_assumption
+         · first | exact (readByte_adv ok).ok | exact (read_unread_adv ok (by assumption)).ok
+         · first | (rw [(readByte_adv ok).rawTag]; exact hs) | (rw [(read_unread_adv ok (by assumption)).rawTag]; exact hs)
+         · intro hn
+           first
+           | exact absurd hn (by decide)
+           | exact lt1_of_read (by assumption) (by assumption)
+         · intro hn
+           first
+           | exact absurd hn (by decide)
+           | exact lt2_of_read (by assumption) (p1 rfl)))
+  all_goals trace_state
+  all_goals sorry
+
 end Tokenizer
 end Rio.Html
